@@ -49,7 +49,8 @@ Goal True. idtac "ASSUMPTIONS-OF C12_example_deliverable". Abort.
 Print Assumptions C12_example_deliverable.
 
 (* THE WHOLE FILE.  A free-form source made of one-line statements, statements continued over any
-   number of lines (pieces free of quotes, '!', '&' and ';'; any blanks around the ampersands),
+   number of lines (pieces free of quotes, '!', '&' and ';'; any blanks around the ampersands; comment
+   and empty lines between the lines of the statement, delivered right after it),
    full-line comments with any indentation and empty lines -- any number of them in any order -- is
    delivered by the reader as exactly one item per statement, in source order, each with the exact
    numbers of its first and last physical line, label and construct name split off; comments and
@@ -65,10 +66,12 @@ Proof. exact read_source_layouts. Qed.
 Goal True. idtac "ASSUMPTIONS-OF C12_whole_file_each_statement_once_in_order_partial". Abort.
 Print Assumptions C12_whole_file_each_statement_once_in_order_partial.
 
-(* the same from any line count, e.g. after a consumer has read part of the file *)
+(* the same from any line count and with any queue of items already pending (comments met inside a
+   continuation, items pushed back): the pending items come first, ignored comments dropped *)
 Theorem C12_rest_of_file_each_statement_once_in_order_partial :
-  forall (ign : bool) (fuel : nat) (ls : list lay) (lc : nat), Forall good ls -> List.length ls < fuel ->
-    read_all fuel (ReaderJoin.st ign (flat_map phys ls) lc []) = items ign ls lc.
+  forall (ign : bool) (fuel : nat) (ls : list lay) (pend : list ritem) (lc : nat),
+    Forall pend_ok pend -> Forall good ls -> List.length (keep ign pend ++ items ign ls lc) < fuel ->
+    read_all fuel (ReaderJoin.st ign (flat_map phys ls) lc pend) = keep ign pend ++ items ign ls lc.
 Proof. exact read_all_layouts. Qed.
 Goal True. idtac "ASSUMPTIONS-OF C12_rest_of_file_each_statement_once_in_order_partial". Abort.
 Print Assumptions C12_rest_of_file_each_statement_once_in_order_partial.
@@ -78,17 +81,23 @@ Print Assumptions C12_rest_of_file_each_statement_once_in_order_partial.
 Definition ex_file : list lay :=
   [LCont (s2t " 10 nm: x = a +&") (Some 10%N) (Some (s2t "nm")) (s2t "x = a +") [(s2t "   ", s2t " b *")] (s2t "  ") (s2t " c");
    LCom (s2t "  ") (s2t " note"); LBlank;
+   LContC (s2t "y = f(&") None None (s2t "y = f(") [CCom (s2t "   ! inside"); CMid (s2t " ") (s2t "1, "); CBlank] (s2t "") (s2t "2)");
    LOne (s2t "  call s(1, 2)") None None (s2t "  call s(1, 2)")].
 Example C12_example_whole_file : Forall good ex_file /\
-  flat_map phys ex_file = [s2t " 10 nm: x = a +&"; s2t "   & b *&"; s2t "  & c"; s2t "  ! note"; []; s2t "  call s(1, 2)"] /\
+  flat_map phys ex_file = [s2t " 10 nm: x = a +&"; s2t "   & b *&"; s2t "  & c"; s2t "  ! note"; [];
+                           s2t "y = f(&"; s2t "   ! inside"; s2t " &1, &"; []; s2t "&2)"; s2t "  call s(1, 2)"] /\
   items false ex_file 0 = [RLine (s2t "x = a + b * c") (Some 10%N) (Some (s2t "nm")) 1 3;
                            RComment (s2t "! note") 4 4 false; RComment [] 5 5 false;
-                           RLine (s2t "call s(1, 2)") None None 6 6] /\
+                           RLine (s2t "y = f(1, 2)") None None 6 10; RComment (s2t "! inside") 7 7 false;
+                           RLine (s2t "call s(1, 2)") None None 11 11] /\
   items true ex_file 0 = [RLine (s2t "x = a + b * c") (Some 10%N) (Some (s2t "nm")) 1 3;
-                          RLine (s2t "call s(1, 2)") None None 6 6].
+                          RLine (s2t "y = f(1, 2)") None None 6 10;
+                          RLine (s2t "call s(1, 2)") None None 11 11] /\
+  read_source (flat_map phys ex_file) true false false = items false ex_file 0.
 Proof.
-  split; [|split; [|split]]; try (vm_compute; reflexivity).
+  split; [|split; [|split; [|split]]]; try (vm_compute; reflexivity).
   repeat constructor; try (vm_compute; reflexivity); try discriminate.
+  - eexists. split; vm_compute; reflexivity.
   - eexists. split; vm_compute; reflexivity.
   - eexists. split; vm_compute; reflexivity.
 Qed.
